@@ -56,6 +56,11 @@ Definition handout_open (fw : bool) (tag : byte) (b : option (list str)) : res (
 Definition handout_run (fw : bool) (tag : byte) (b : option (list str)) (ops : list cop) : list obs :=
   krun (handout_cursor fw tag b) (handout_open fw tag b) ops.
 
+(* the same hand-outs over the pinned typed cursors *)
+Definition handout_run_legacy (fw : bool) (tag : byte) (b : option (list str)) (ops : list cop) : list obs :=
+  krun (opt_cursor (typed_cursor_legacy fw tag (tagged tag (bucket_elems b))))
+       (match b with None => Ok None | Some l => rmap Some (typed_open_legacy fw (tagged tag l)) end) ops.
+
 (* setIndex.OpenKeyCursor / TypedBucket.OpenCursor: NewBoltCursor over the bucket, or the emptyCursor *)
 Definition rawhand_cursor (fw : bool) (b : option (list str)) : kcursor (option bc) :=
   opt_cursor (if fw then fwd_cursor (bucket_elems b) else rev_cursor (bucket_elems b)).
